@@ -35,5 +35,7 @@ class AbsmaxOptimizer(SymmetricOptimizer):
             rmax = torch.amax(torch.abs(base), dim=dim, keepdim=True)
         qmax = 2 ** (bits - 1) - 1
         scale = rmax / qmax
-        # A null range would produce a null scale, hence NaN when dividing by it: any scale fits all-zero values
-        return torch.where(scale == 0, torch.ones_like(scale), scale)
+        # A null scale (all-zero values, or a range too small for the dtype) would produce NaN when dividing by it:
+        # the smallest positive scale fits such values
+        info = torch.finfo(scale.dtype)
+        return torch.clamp(scale, min=info.tiny * info.eps)
